@@ -280,6 +280,38 @@ def run_c16(prop, tier, seed):
                       ev += 1
                   except Exception as e:  # noqa
                       res["oracle_failures"].append({"oracle": "C16-assign", "cls": cls.__name__, "case": i, "detail": f"assigning a synced child raised {type(e).__name__}: {e}"})
+              # 5. update()/reset() given a LIVE synced collection for a key that already holds a nested collection of the same
+              #    class (same tree or another collection): the stored value is an independent copy
+              if not is_list:
+                  try:
+                      x.reset({"p": {"v": [1]}, "q": {"v": [2], "w": 1}})
+                      src_kind = g.r.choice(["same-tree", "other-collection"])
+                      if src_kind == "same-tree":
+                          src = x["q"]
+                      else:
+                          st5 = Store(ns, cls, tmp, f"c16_{i}_e")
+                          o5 = st5.make()
+                          o5.reset({"q": {"v": [2], "w": 1}})
+                          src = o5["q"]
+                      how5 = g.r.choice(["update", "update_kw", "reset"])
+                      if how5 == "update":
+                          x.update({"p": src})
+                      elif how5 == "update_kw":
+                          x.update(p=src)
+                      else:
+                          x.reset({"p": src, "q": {"v": [2], "w": 1}})
+                      if x["p"] is src:
+                          res["oracle_failures"].append({"oracle": "C16-assign", "cls": cls.__name__, "case": i, "seed": seed,
+                                                         "detail": f"{how5}() given a live nested collection ({src_kind}) for a key that already held one stored the very same object"})
+                      else:
+                          src_before = copy.deepcopy(deep_plain(src))
+                          x["p"]["only_in_copy"] = 1
+                          if not strict_eq(deep_plain(src), src_before):
+                              res["oracle_failures"].append({"oracle": "C16-assign", "cls": cls.__name__, "case": i, "seed": seed,
+                                                             "detail": f"{how5}() with a live nested collection ({src_kind}): mutating the stored value changed the source"})
+                      ev += 1
+                  except Exception as e_:  # noqa
+                      res["oracle_failures"].append({"oracle": "C16-assign", "cls": cls.__name__, "case": i, "detail": f"update/reset with a live nested collection raised {type(e_).__name__}: {e_}"})
               key = f"{cls.__name__}:{entry}"
               res["stats"][key] = res["stats"].get(key, 0) + 1
               if len(res["samples"]) < 2:
@@ -556,6 +588,9 @@ def run_c18(prop, tier, seed):
                                                                    "attr": jsonable(ra_res), "item": jsonable(ri_res), "detail": "obj.k and obj['k'] behave differently"})
                             elif name in prot or name.startswith("__"):
                                 # protected names address the object itself: attribute syntax never touches the data
+                                if verb == "get" and present and name in prot and (name in iattrs or name in cattrs) and ra_res == ("ok", {"v": 1}):
+                                    res["oracle_failures"].append({"oracle": "C18-protected", "cls": r["cls"], "key": name, "depth": depth,
+                                                                   "detail": f"obj.{name} at depth {depth} returned the ITEM stored under that protected name although objects of this class have an attribute of that name"})
                                 if verb in ("set", "del") and name in ("_data", "_root", "_suspend_sync", "_load_and_save", "_lock_and_save", "_filename", "filename", "buffered"):
                                     continue        # would corrupt the object on purpose; not part of the property
                                 if verb == "get" and not strict_eq(ra._to_base(), ri._to_base()) and not present:
@@ -816,4 +851,99 @@ def run_c14_reader_at_rename(prop, tier, seed):
         shutil.rmtree(tmp, ignore_errors=True)
     res.update(evaluations=ev, distinct_nontrivial=len(res["stats"]), traces=0,
                rule="(JSON class, context kind, document size): a second object reads right before and right after the writer's rename; distinct = the triple")
+    return res
+
+
+# ------------------------------------------------------------------------------------------ C11: arguments that are synced collections
+def run_c11_foreign(prop, tier, seed):
+    """The argument of an entry point is itself a LIVE synced collection of a family with weaker rules (a plain JSONDict /
+    JSONList may hold dotted keys; the attribute-access families forbid them): it must be validated like plain data."""
+    ns = import_library()
+    cj = ns.cj
+    tmp = tempfile.mkdtemp(prefix="verif_c11f_")
+    res = {"name": "C11-synced-arguments", "model_mismatches": [], "oracle_failures": [], "samples": [], "stats": {}}
+    ev = 0
+    attr_dicts = [cj.JSONAttrDict, cj.BufferedJSONAttrDict, cj.MemoryBufferedJSONAttrDict]
+    attr_lists = [cj.JSONAttrList, cj.BufferedJSONAttrList, cj.MemoryBufferedJSONAttrList]
+
+    def dotted(o):
+        if isinstance(o, dict):
+            return any(("." in k if isinstance(k, str) else True) or dotted(v) for k, v in o.items())
+        if isinstance(o, (list, tuple)):
+            return any(dotted(v) for v in o)
+        return False
+    try:
+        n = 0
+        for depth in (0, 1, 2):
+            payload = {"a.b": 1}
+            for _ in range(depth):
+                payload = {"lvl": [payload]}
+            srcs = []
+            sd = cj.JSONDict(os.path.join(tmp, f"src_d{depth}.json")); sd.reset({"root": payload, "r2": payload})
+            sl = cj.JSONList(os.path.join(tmp, f"src_l{depth}.json")); sl.reset([payload, payload])
+            srcs = [("root JSONDict", sd, "dict"), ("nested JSONDict", sd["root"], "dict"), ("root JSONList", sl, "list"), ("nested dict in a JSONList", sl[0], "dict")]
+            for sname, src, skind in srcs:
+                for cls in attr_dicts + attr_lists:
+                    is_list = cls in attr_lists
+                    entries = (["ctor", "append", "insert", "setitem", "extend", "iadd", "reset", "slice"] if is_list
+                               else ["ctor", "setitem", "update", "update_kw", "setdefault", "reset", "setattr", "nested_setitem"])
+                    for entry in entries:
+                        n += 1
+                        fn = os.path.join(tmp, f"t{n}.json")
+                        with open(fn, "w") as fh:
+                            json.dump([{"ok": 1}] if is_list else {"ok": {"x": 1}}, fh)
+                        raised = None
+                        x = None
+                        try:
+                            if entry == "ctor":
+                                if (skind == "list") != is_list:
+                                    continue
+                                os.remove(fn)
+                                x = cls(fn, data=src)
+                            else:
+                                x = cls(fn)
+                                if entry == "append": x.append(src)
+                                elif entry == "insert": x.insert(0, src)
+                                elif entry == "setitem": (x.__setitem__(0, src) if is_list else x.__setitem__("k", src))
+                                elif entry == "extend": x.extend([src])
+                                elif entry == "iadd": x += [src]
+                                elif entry == "slice": x[0:1] = [src]
+                                elif entry == "reset":
+                                    if (skind == "list") != is_list:
+                                        x.reset([src] if is_list else {"k": src})
+                                    else:
+                                        x.reset(src)
+                                elif entry == "update": x.update({"k": src})
+                                elif entry == "update_kw": x.update(k=src)
+                                elif entry == "setdefault": x.setdefault("fresh", src)
+                                elif entry == "setattr": setattr(x, "k", src)
+                                elif entry == "nested_setitem": x["ok"]["deep"] = src
+                        except (TypeError, ValueError) as e:
+                            raised = type(e).__name__
+                        except Exception as e:  # noqa
+                            raised = "OTHER:" + type(e).__name__
+                        ev += 1
+                        mem = None
+                        try:
+                            mem = deep_plain(x) if x is not None else None
+                        except Exception:  # noqa
+                            pass
+                        disk = None
+                        if os.path.exists(fn):
+                            with open(fn) as fh:
+                                try:
+                                    disk = json.load(fh)
+                                except Exception:  # noqa
+                                    disk = None
+                        if raised is None or (raised or "").startswith("OTHER") or dotted(mem) or dotted(disk):
+                            res["oracle_failures"].append({"oracle": "C11-synced-argument", "cls": cls.__name__, "entry": entry, "source": sname, "depth": depth,
+                                                           "detail": f"{entry} of {cls.__name__} given a {sname} holding a dotted key at depth {depth}: raised {raised}; "
+                                                                     f"memory has a dotted key: {dotted(mem)}; file has a dotted key: {dotted(disk)}"})
+                        key = f"{cls.__name__}:{entry}"
+                        res["stats"][key] = res["stats"].get(key, 0) + 1
+        res["samples"] = [{"class": "JSONAttrList", "entry": "append", "argument": "a live JSONDict holding {'a.b': 1}"}]
+    finally:
+        shutil.rmtree(tmp, ignore_errors=True)
+    res.update(evaluations=ev, distinct_nontrivial=len(res["stats"]), traces=0,
+               rule="(attribute-access class, entry point) x (root / nested JSONDict / JSONList holding a dotted key at depth 0..2) as the argument; distinct = (class, entry point)")
     return res
